@@ -111,7 +111,11 @@ pub fn gen_feature(t: &mut Tape, idx: usize) -> Gen {
             g.outlines += 1;
             for _ in 0..t.range(1, 3) {
                 if t.chance(1, 3) {
-                    g.text.push_str(&format!("{ind}  @ex{}\n", t.pick(3)));
+                    // table tags: own ones, tags the outline already carries, and repeated ones
+                    let pool = ["@ex0", "@ex1", "@ex2", "@t1", "@t2"];
+                    let n = t.range(1, 3);
+                    let line: Vec<&str> = (0..n).map(|_| pool[t.pick(pool.len())]).collect();
+                    g.text.push_str(&format!("{ind}  {}\n", line.join(" ")));
                 }
                 g.text.push_str(&format!("{ind}  Examples:{}\n", if t.chance(1, 4) { " named" } else { "" }));
                 if t.chance(1, 5) {
